@@ -180,6 +180,14 @@ CLAIMS = {
              'SERIALIZABLE is set inside the transaction before them, and that transaction is not ended before the body ends; db_session option table; commit empties the locked set.',
         note='Schedules of two or three sessions (who waits, who fails, final values versus serial executions) are NOT covered: outside contract-based verification. '
              'Row-lock / write-lock / SERIALIZABLE semantics are the database\'s contract (assumed).'),
+    'C14': dict(
+        text='PARTIAL proof: in-session half shared with C11 (key indexes as z3 arrays with arbitrary content: the real update_simple_index / update_composite_index / db_* variants and '
+             '_get_from_identity_map_ raise on a key occupied by another object and change nothing, whole-view postconditions); flush half: Entity._save_created_ with a symbolic '
+             'auto-generated id and arbitrary index: a used id raises TransactionIntegrityError with the index unchanged, otherwise registered at exactly that id; IntegrityError / DatabaseError '
+             'from the database surface as TransactionIntegrityError / UnexpectedError with the object not marked inserted. BOUNDED end-to-end scenarios on real SQLite (pk / unique / composite '
+             'x row only in the database / loaded / created in the session x create / modify): conflict reported, no duplicate committed, database unchanged.',
+        note='"No sequence of operations" is an induction over histories: not claimed; each operation preserves at-most-one-object-per-key. Rollback after the error: C18 / C17. '
+             'The database enforcing the generated constraints is assumed (exercised for SQLite only, bounded).'),
 }
 
 _NOT_BUILT = 'within reach of the technique per DESIGN.md, check not built yet'
